@@ -252,6 +252,8 @@ def u_scipy(root):
     mk(eng, S, "did_fit", "getter", result=lambda vw: VBool(F(vw, vw.pre, "_did_fit").e))
     mk(eng, "MinimizerBase", "function_value", "getter", result=lambda vw: VNum(fresh("fval", R)))
     gp = mk(eng, "MinimizerBase", "_get_profile_bound", modifies=mods + [("_par_val", "optseq", ""), ("_par_val", "optseq", "len")], result=lambda vw: VTuple([VNum(fresh("low", R)), VNum(fresh("high", R)), VOpaque("arrows")]))
+    gp.raises = lambda vw: ("ValueError", z3.Bool("request_refused_after_the_bounds_were_searched"))          # e.g. a confidence level outside (0, 1) noticed after the first bound was visited
+    gp.exc_ensures = [lambda vw: None]                                                                          # ... the point may be anywhere then (frame havocked)
     cf = mk(eng, S, "_calc_fun_with_constraints", modifies=mods, result=lambda vw: VNum(fresh("profiled", R)))
     cf.ensures.append(lambda vw: [z3.Not(F(vw, vw.post, "#sync_valid").e)])
     eng.lib["np.linspace"] = lambda e, st, a, kw, n: VSeq(fresh("grid", PA), kw["num"].e)
@@ -263,8 +265,8 @@ def u_scipy(root):
     c.requires.append(lambda vw: z3.And(z3.Not(F(vw, vw.pre, "_par_val").none), F(vw, vw.pre, "_par_val").len == N, z3.ForAll([i], z3.Implies(z3.And(0 <= i, i < N), F(vw, vw.pre, "_par_val").arr[i] == entry.arr[i]))))
     c.loops[0] = lambda e, s: z3.And(0 <= s.locals["#i0"].e, s.locals["_y"].len == z3.Int("size"),
                                      z3.ForAll([i], z3.Implies(z3.And(0 <= i, i < N), e.read_field(s, s.locals["self"], "#saved").arr[i] == entry.arr[i])))
-    c.ensures.append(lambda vw: [] if vw.flow == "raise" else synced_post(pv)(vw) +
-                     [("the parameter values are where they were before the query (the point saved BEFORE any excursion is the one restored at the end)", z3.ForAll([i], z3.Implies(z3.And(0 <= i, i < N), F(vw, vw.post, "_par_val").arr[i] == entry.arr[i])))])
+    c.ensures.append(lambda vw: (synced_post(pv)(vw) if vw.flow != "raise" else []) +
+                     [("the parameter values are where they were before the query - also when the request is refused half-way (the point saved BEFORE any excursion is the one restored at the end)", z3.ForAll([i], z3.Implies(z3.And(0 <= i, i < N), F(vw, vw.post, "_par_val").arr[i] == entry.arr[i])))])
     eng.verify(S, "profile", None, lambda e, st, me_: (e.write_field(st, me_, "_par_names", VTuple([VStr("a"), VStr("b")])), {"parameter_name": VStr("a"), "size": VNum(z3.Int("size"))})[1], contract=c)
     return eng
 
@@ -374,6 +376,8 @@ def u_iminuit(root):
     gp = mk(eng, "MinimizerBase", "_get_profile_bound", modifies=[("#sync", "seq", ""), ("#sync_valid", "bool", ""), ("#backend", "seq", ""), ("_par_val", "optseq", "none"), ("_par_val", "optseq", ""), ("_par_val", "optseq", "len")],
             result=lambda vw: VTuple([VNum(fresh("low", R)), VNum(fresh("high", R)), VOpaque("arrows")]))        # a search with excursions of its own (base class): anything may have happened to the point
     gp.ensures.append(lambda vw: [wf(vw, vw.post)])
+    gp.raises = lambda vw: ("ValueError", z3.Bool("request_refused_after_the_bounds_were_searched"))
+    gp.exc_ensures = [lambda vw: [wf(vw, vw.post)]]
     # 1b. _load_state: back end and caches restored, callback at the restored values (twice: here and in the base class)
     bl = mk(eng, "MinimizerBase", "_load_state", modifies=mods + [("_did_fit", "bool", "")])
     bl.requires.append(lambda vw: wf(vw, vw.pre))
@@ -423,6 +427,8 @@ def u_iminuit(root):
                                                     *([s.locals["_asymm_par_errs"].rows == N, s.locals["_asymm_par_errs"].cols == 2] if name == "_calculate_asymmetric_parameter_errors" and "_asymm_par_errs" in s.locals else []))
 
         def post_q(vw, name=name):
+            if vw.flow == "raise" and name == "profile":          # (a fit has been performed: the only refusal left is the one of the bound search, possibly after an excursion)
+                return [("a refused request also ends with the return to the minimum: " + l_, f_) for l_, f_ in synced_post(cur)(vw)]
             if vw.flow == "raise":
                 return [("raises only before a fit / for unknown options", z3.BoolVal(True))]
             if name == "_calculate_asymmetric_parameter_errors" and isinstance(vw.result, VNone):
